@@ -23,7 +23,7 @@ from sim.ref import graph as gref, sv
 from sim.seam import OutcomeScript, OwnedRNG
 
 ID = "C10"
-RUNS = {"quick": 900, "thorough": 40000}
+RUNS = {"quick": 1400, "thorough": 40000}
 BUDGET = {"quick": 80, "thorough": 1500}
 CHUNK = {"quick": 10, "thorough": 40}
 RUN_TIMEOUT_S = 600
@@ -53,7 +53,7 @@ def gen_case(run_seed, tier):
     sz = stream(run_seed, "sizes")
     method = sz.choice(METHODS + ["default", "default"])
     nmax = 6 if tier == "thorough" else 5
-    big = sz.random() < 0.1  # an 8-vertex target now and then (size-gated code paths); kept to cheap methods
+    big = sz.random() < 0.2  # an 8-vertex target now and then (size-gated code paths); kept to cheap methods
     if method == "linear":
         g, fam = graphs.relabel(sz, graphs.path(sz.randint(3, nmax))), "path"
     elif method == "rgs":
